@@ -213,6 +213,11 @@ func VerifC10_SwapToNativeHook() {
 	one, w := big.NewInt(1), verifPow2(100)
 	n := 1 + verifChoice("events", 2) // 1..2 events
 	receivers := []sdk.AccAddress{e.other, e.owner}
+	// the first receiver may be an address the bank refuses to credit (a module account, say)
+	if verifChoice("blockedReceiver", 2) == 1 {
+		e.bank.blocked[receivers[0].String()] = true
+	}
+	blockedHit := false
 	var logs []*ethtypes.Log
 	want := map[string]*big.Int{}
 	total := big.NewInt(0)
@@ -234,6 +239,9 @@ func VerifC10_SwapToNativeHook() {
 		if valid {
 			anyValid = true
 			k := receivers[i].String()
+			if e.bank.blocked[k] {
+				blockedHit = true
+			}
 			if want[k] == nil {
 				want[k] = big.NewInt(0)
 			}
@@ -258,11 +266,14 @@ func VerifC10_SwapToNativeHook() {
 	sup1 := e.bank.supplyOf(denom).BigInt()
 	if err != nil {
 		verifCover("refused")
-		verifAssert(!enabled && anyValid, "the hook only fails when the feature is disabled and a conversion was requested")
+		verifAssert((!enabled && anyValid) || blockedHit, "the hook only fails when a requested conversion cannot be carried out (feature disabled, receiver cannot be credited)")
 		verifAssert(sup1.Cmp(sup0) == 0, "a failing hook mints nothing")
 		return
 	}
 	verifCover("minted")
+	// the contract has burned the ERC20 amount of every event already: an event whose receiver cannot be
+	// credited must fail the hook (so that the whole EVM transaction, burn included, is reverted)
+	verifAssert(!blockedHit, "a conversion whose receiver cannot be credited fails as a whole")
 	verifAssert(verifSub(sup1, sup0).Cmp(total) == 0, "native supply grows by exactly the sum of the valid events")
 	for _, r := range receivers {
 		exp := want[r.String()]
